@@ -9,6 +9,7 @@ import (
 	"path/filepath"
 	"sort"
 	"strings"
+	"sync"
 	"time"
 
 	"github.com/compose-spec/compose-go/v2/types"
@@ -35,12 +36,21 @@ func C11(c *core.Ctx) {
 	_ = os.MkdirAll(wd, 0o755)
 	_ = os.WriteFile(filepath.Join(wd, "a.env"), []byte("FROMFILE=1\n"), 0o644)
 	n, invalid := 0, 0
-	_, err = core.ReadDump(dump+".dump", func(vars map[string]interface{}) error {
+	var mu sync.Mutex
+	root := wd
+	_, err = core.ReadDumpParallel(dump+".dump", 8, func(idx int, vars map[string]interface{}) error {
 		cs := asMap(vars["cs"])
 		if _, seed := cs["seed"]; seed {
 			return nil
 		}
+		mu.Lock()
 		n++
+		mu.Unlock()
+		n := idx
+		wd := filepath.Join(root, fmt.Sprint(idx)) // a directory of its own: the placements write files
+		_ = os.MkdirAll(wd, 0o755)
+		_ = os.WriteFile(filepath.Join(wd, "a.env"), []byte("FROMFILE=1\n"), 0o644)
+		defer os.RemoveAll(wd)
 		implicit, explicit := yamlOf(cs["implicit"]), yamlOf(cs["explicit"])
 		dims := strList(cs["dims"])
 		key := strings.Join(dims, "+")
@@ -53,7 +63,9 @@ func C11(c *core.Ctx) {
 		pe, ee := safeLoad(wd, nil, []namedDoc{{Name: filepath.Join(wd, "compose.yaml"), Content: explicit}})
 		switch {
 		case ei != nil && ee != nil:
+			mu.Lock()
 			invalid++
+			mu.Unlock()
 		case ei != nil && strings.HasPrefix(ei.Error(), "panic"):
 			c.Report(core.Finding{Sig: "panic:" + key, Detail: fmt.Sprintf("%s: %v — %s", key, ei, implicit), Replay: rep})
 		case ei != nil:
@@ -72,7 +84,7 @@ func C11(c *core.Ctx) {
 			}
 			// the same pair with the attributes arriving from an override file, an extended base (with and without a local
 			// refinement), an included file, and under a `name:` that differs from the requested project name
-			if !c.Quick() || n%4 == 0 {
+			if !c.Quick() || n%2 == 0 {
 				pim, _ := plainOf(cs["implicit"]).(map[string]interface{})
 				pex, _ := plainOf(cs["explicit"]).(map[string]interface{})
 				for _, pl := range []string{"named", "override", "extends", "extends-refined", "included"} {
